@@ -101,6 +101,9 @@ func (fr *Frame) call(b *ssa.BasicBlock, idx int, ins ssa.Instruction, cc *ssa.C
 	}
 	// builtins
 	if bi, ok := cc.Value.(*ssa.Builtin); ok {
+		if bi.Name() == "close" {
+			fr.callSiteSpecs(b, idx, ins, cc, res, st, reach) // closing a channel is addressable as "at close n"
+		}
 		fr.builtin(b, idx, ins, bi, cc, res, st, reach)
 		return
 	}
@@ -1585,7 +1588,10 @@ func siteName(ins ssa.Instruction) string {
 		return "return"
 	case ssa.CallInstruction:
 		cc := x.Common()
-		if _, ok := cc.Value.(*ssa.Builtin); ok {
+		if bi, ok := cc.Value.(*ssa.Builtin); ok {
+			if bi.Name() == "close" {
+				return "close"
+			}
 			return ""
 		}
 		if cc.IsInvoke() {
